@@ -3,6 +3,26 @@ import json, os
 V = os.path.dirname(os.path.dirname(os.path.abspath(__file__)))
 TB = 'Trusted: Coq 8.16.1 kernel + vm_compute (no native_compute), tools/translate (ast -> coq/Gen, fail-closed), ExtrOcamlBasic extraction + ocamlopt, the correspondence harness and CPython 3.12.1. '
 CHECKS = {
+ 'C02': dict(
+   text='Theorem (all texts over printable ASCII + the single-letter and \\xHH escapes, any length, any scanner state): what write_double_quoted writes without folding is scanned back by scan_flow_scalar to exactly the same text and consumes exactly the quoted span - the universal fallback style of the dumper. FULL round trip (value graph -> text -> value graph, all options) is NOT a theorem: it is decided by the exact correspondence of every pipeline stage (represent+serialize events, emitter text, scanner tokens, parser events, composer+constructor graphs) between the Coq model and the implementation, and by a direct dump/load run over generated value graphs x a sampled option product x all four Python/LibYAML dumper-loader pairs.',
+   note=TB + 'Partial: one scalar style without folding is proved; the remaining layers rest on correspondence + direct runs. float repr/parse is CPython. LibYAML is observed only.',
+   technique='Coq proof (double-quoted writer/scanner round trip) + model/implementation correspondence of all pipeline stages + direct round-trip run', ref='DESIGN.md section 8 C02'),
+ 'C03': dict(
+   text='Theorems on the models with explicit Crash/OutOfFuel outcomes: Reader.forward never crashes inside the buffer, the UTF-8 decoder terminates within |bytes|+1 steps with characters or a positioned error, anchor scanning under the NUL-sentinel invariant ends in a token or a ScannerError positioned inside the buffer, the parser over any token list ending in its only STREAM-END does not crash in its first and document-end steps; the full statement is refuted on the model by the \\UFFFFFFFF witness (known finding). scanner_total/parser_total/composer_total are not proved: the outcome class (including the class of any non-YAML exception) of reader, scanner, parser and composer is compared with the model on a malformed-input stream, and the implementation is run on the same stream in all delivery forms under a watchdog (result or YAMLError only, marks inside the input), Python and LibYAML.',
+   note=TB + 'Partial: totality is proved for the listed pieces only. Nesting below the recursion limit. LibYAML is observed only.',
+   technique='Coq proof (safety lemmas on models with explicit crash outcomes) + outcome-class correspondence + direct watchdog run', ref='DESIGN.md section 8 C03'),
+ 'C05': dict(
+   text='Theorem: the double-quoted scalar writer/scanner round trip (as C02). The emitter model (all of emitter.py: states, analysis, style choice, five writers) is compared with yaml.emit on the exact text, including text written before an error, over generated well-formed and ill-formed event streams x options; the direct run emits and re-parses on both back-ends comparing structure, anchors, scalar text, tags (elision only when licensed by the implicit flag of the written style) and directives, and checks that ill-formed streams (exhaustive up to a bounded length) only raise EmitterError.',
+   note=TB + 'Partial: structural emit/parse theorems are not proved; exact-text correspondence and the direct run decide them. LibYAML is observed only.',
+   technique='Coq proof (scalar layer) + exact-text emitter correspondence + direct emit/parse run', ref='DESIGN.md section 8 C05'),
+ 'C07': dict(
+   text='Theorems on the reader model\'s incremental UTF-8 decoder (CPython\'s exact error offsets and lazy ED A0 behaviour included): feeding ANY list of reads non-finally with the undecoded tail carried over equals one final decode of the concatenation (characters, or error offset/byte/reason), hence any two chunkings of the same bytes agree; the decoder\'s fuel is irrelevant. UTF-16, encoding detection and line/column equality across forms are decided by the reader correspondence (four input forms x schedules x demand scripts incl. the read() log) and by a direct run over str / UTF-8 / UTF-8+BOM / UTF-16-LE/BE+BOM / StringIO / BytesIO / short-read streams with every split position for small documents. FULL same-error-for-every-delivery is refuted when an input has two competing errors (known finding).',
+   note=TB + 'Partial as stated. A read() returning an empty result is EOF. LibYAML is observed only (line/column).',
+   technique='Coq proof (chunking independence of the incremental decoder) + reader correspondence + direct all-splits run', ref='DESIGN.md section 8 C07'),
+ 'C09': dict(
+   text='Theorems on the scanner model: after forward over ANY consumed prefix the index grew by its length and (line, column) are the ones obtained by classifying each character (CR LF once, U+FEFF not advancing the column), no crash, nothing else moved; the line equals the number of breaks consumed. Every mark of the model is such a snapshot. Monotonicity, bracket balance, the event grammar for all token lists and span=value are not proved: the scan and parse correspondences compare every token/event attribute and every mark with yaml.scan/yaml.parse, and the direct run re-derives every mark of the implementation from the text, recognises the event grammar and bracket balance, checks spans and error marks, exhausts short indicator strings, and drives the parser alone with every token-kind list up to a bounded length.',
+   note=TB + 'Partial as stated. LibYAML marks are checked for range, monotonicity and grammar only.',
+   technique='Coq proof (position invariant) + scan/parse correspondence incl. all marks + direct mark recomputation and grammar recognisers', ref='DESIGN.md section 8 C09'),
  'C08': dict(
    text='Theorems over ALL strings, decided by a certified regex decision procedure (derivatives + proved soundness) on regexes regenerated from resolver.py/constructor.py on every run: the first-character index never hides a match on plain-scalar texts, the type languages are pairwise disjoint, each language equals the frozen YAML 1.1 reference, the resolver model equals first-match, quoted scalars are str, the constructor timestamp regexp covers the resolver one. Values (int/float/bool/timestamp conversion) and the dump side are tied by correspondence and a direct run against a frozen reference; converter totality is refuted (0x_) and recorded.',
    note=TB + 'Scalar *values* and the dump-side clauses are decided by correspondence (bit-exact) and the direct run, not by theorems; CPython int()/float()/datetime/re are modelled.',
